@@ -22,7 +22,7 @@ func init() {
 			"(same-handlers-both-arms) the three handler managers run the same handler list in the stream arm and in the value arm, the value arm propagating errors; " +
 			"(key-wrappers) input/output key wrappers replace both .i and .t and the helper; " +
 			"(stream-substrate) the copy/merge machinery the streaming paradigms run on keeps positions, closes all sources and dispatches consistently (shared with C08); (stream-elem-type) a handler whose value form provably yields a concrete type T does not pack its stream form as a stream of any when some consumer unpacks streams of exactly T (producer/consumer agreement on the packed chunk type; a mismatch breaks the stream paradigms only); (no-compile-time-stream) no single-use stream created at compile time is captured by a reusable run-time handler.",
-		decided:    []string{"derivation-total", "adapter-shape", "failure-agreement", "pair-complete", "in-out-wiring", "same-handlers-both-arms", "key-wrappers", "stream-substrate", "stream-elem-type", "no-compile-time-stream"},
+		decided:    []string{"derivation-total", "adapter-shape", "failure-agreement", "pair-complete", "in-out-wiring", "same-handlers-both-arms", "key-wrappers", "stream-substrate", "stream-elem-type", "no-compile-time-stream", "checker-present-keys", "start-consumes-callback-copy"},
 		notDecided: []string{"value equality of the outputs across paradigms", "chunking independence (C14)", "behaviour of user node implementations"},
 		run:        runC04,
 	})
